@@ -1403,7 +1403,8 @@ class TTNS(TTNBase):
         if imag_time:
             coeff = 1
             tau = tau.imag
-            ttns = self
+            # the projector splitting schemes sweep in place
+            ttns = self.copy()
         else:
             coeff = -1j
             ttns = self.to_complex()
